@@ -255,6 +255,7 @@ func runC20(c *core.Ctx, o Options) {
 	}
 	c.Extra["functions"] = len(fns)
 	c.Extra["guarded_accesses"] = nAcc
+	c.RuleMin = map[string]int{"atomic": 7, "complete": 6, "fresh-message": 3, "lockset": 31}
 	c.MinObl = 30
 }
 
